@@ -127,16 +127,21 @@ func (cx *Connection) Write(p []byte) (n int, err error) {
 // a connection is wrapped by a package that does not support
 // our Connection type (for example, `tls.Server()`).
 func (cx *Connection) Wrap(conn net.Conn) *Connection {
-	return &Connection{
+	wrapped := &Connection{
 		Conn:         conn,
 		Context:      cx.Context,
 		Logger:       cx.Logger,
-		buf:          cx.buf,
-		offset:       cx.offset,
 		matching:     cx.matching,
 		bytesRead:    cx.bytesRead,
 		bytesWritten: cx.bytesWritten,
 	}
+	// conn reads through cx, so any prefetched bytes cx has not handed out yet
+	// will reach the new connection by way of conn. Copying them (and the offset)
+	// as well would serve them twice. Only reuse the buffer once it is drained.
+	if cx.offset >= len(cx.buf) {
+		wrapped.buf = cx.buf[:0]
+	}
+	return wrapped
 }
 
 // prefetch tries to read all bytes that a client initially sent us without blocking.
